@@ -32,6 +32,27 @@ def check(run):
         top = {"name": "s6", "disabled": False, "rank": 0, "hooks": dict(_NOHOOKS), "injected": [], "tests": [mk("t%d" % (10 + i), i) for i in range(3 + k)], "subs": [sub]}
         base.append({"id": "qs%d" % k, "project": {"fixtures": fx, "suites": [top]}, "sched": [],
                      "options": {"nb_threads": 1, "stop_on_failure": False, "force_disabled": False}})
+    # directed projects: --force-disabled; a suite-scoped fixture (and a teardown_suite hook) used by one enabled test and by several
+    # disabled tests, which the option makes run: they are tests of the suite like the others
+    for k in range(4 if run.tier == "quick" else 40):
+        fx = [{"name": "f5", "scope": "suite", "params": [], "per_thread": False, "generator": True, "setup": [["log", 1, 1]], "teardown": [["mark", 2], ["log", 1, 3]]}]
+        if k % 4:
+            fx.append({"name": "f6", "scope": "test", "params": ["f5"], "per_thread": False, "generator": True,
+                       "setup": [["log", 1, 6], ["use", "f5"]], "teardown": [["log", 1, 7]]})
+        arg = "f6" if k % 4 else "f5"
+        mk = lambda n, i, dis: {"name": n, "disabled": dis, "rank": i, "deps": [], "args": [arg], "params": {},
+                                "body": [["mark", 40 + i], ["log", 1, 50 + i], ["use", arg]]}
+        hooks = dict(_NOHOOKS)
+        if k % 3 == 0:
+            hooks["teardown_suite"] = [["log", 1, 8]]
+        # a test that has been taken by a worker stays in its setup_test hook for a while (the test-scoped fixtures come after it)
+        hooks["setup_test"] = [["mark", 60 + i] for i in range(2 + k % 4)]
+        ntests = 2 if k % 2 else 3 + k % 3
+        pos = 0 if k % 2 else run.rng.randint(0, ntests - 1)
+        tests = [mk("t%d" % (10 + i), i, i != pos) for i in range(ntests)]
+        top = {"name": "s6", "disabled": False, "rank": 0, "hooks": hooks, "injected": [], "tests": tests, "subs": []}
+        base.append({"id": "qf%d" % k, "project": {"fixtures": fx, "suites": [top]}, "sched": [],
+                     "options": {"nb_threads": 1, "stop_on_failure": False, "force_disabled": True}})
     cases, ref_of = [], {}
     for c in base:
         c["options"] = {"nb_threads": 1, "stop_on_failure": False, "force_disabled": c["options"]["force_disabled"]}
@@ -49,6 +70,16 @@ def check(run):
             c2["sched"] = projgen.gen_sched(run.rng, kind=run.rng.choice(["random", "last", "bursts", "random"]))
             ref_of[c2["id"]] = c["id"]
             cases.append(c2)
+        if c["id"].startswith("qf"):
+            # starving schedules: one worker goes on alone for j steps, then the other one as long as it can (and the reverse)
+            for j in range(1, 11):
+                for first in (0, 1):
+                    c2 = copy.deepcopy(c)
+                    c2["id"] = "%s_s%d_%d" % (c["id"], j, first)
+                    c2["options"]["nb_threads"] = 2
+                    c2["sched"] = [first] * j + [1 - first] * 400
+                    ref_of[c2["id"]] = c["id"]
+                    cases.append(c2)
     # the writer half on live streams (harness/tworuns.py): the 1-thread run and the first N-thread run of some projects
     # also record the events as Model/Events.v sees them
     n_live = 12 if run.tier == "quick" else 200
